@@ -21,12 +21,18 @@ ObjOfRec(r) == Obj(r.pos, r.neg, r.ep, r.en, r.sc, r.ec)
 NoRun == [active |-> FALSE]
 Init == l = 1 /\ run = NoRun
 
-(* metric menu: integer count / exact rate at one threshold position           *)
+(* metric menu.  Every metric value is a SEQUENCE of components, each <<n, d>>    *)
+(* (<<0, 0>> = NaN): integer counts, exact rates, or the two-component metric      *)
+(* "vec" = <<FP, TP if anything is predicted positive else NaN>> (array-valued,    *)
+(* NaN in one component only).                                                      *)
 MetricVal(name, o, t2) ==
-  CASE name = "fp_count" -> <<FP(CountCM(o, t2)), 1>>
-    [] name = "fn_count" -> <<FN(CountCM(o, t2)), 1>>
-    [] OTHER -> LET r == MetricRate(name, CountCM(o, t2)) IN IF r = NaN THEN <<0, 0>> ELSE r
-SameVal(a, b) == IF a[2] = 0 \/ b[2] = 0 THEN a[2] = 0 /\ b[2] = 0 ELSE REq(a, b)
+  LET c == CountCM(o, t2) IN
+  CASE name = "fp_count" -> << <<FP(c), 1>> >>
+    [] name = "fn_count" -> << <<FN(c), 1>> >>
+    [] name = "vec" -> << <<FP(c), 1>>, IF TP(c) + FP(c) = 0 THEN <<0, 0>> ELSE <<TP(c), 1>> >>
+    [] OTHER -> LET r == MetricRate(name, c) IN << IF r = NaN THEN <<0, 0>> ELSE r >>
+SameQ1(a, b) == IF a[2] = 0 \/ b[2] = 0 THEN a[2] = 0 /\ b[2] = 0 ELSE REq(a, b)
+SameVal(a, b) == Len(a) = Len(b) /\ \A k \in DOMAIN a : SameQ1(a[k], b[k])
 
 TraceStart ==
   /\ IsEvent("Start")
@@ -60,16 +66,18 @@ TraceReturn ==
          np == Len(r.produced)
          ok == e.exc = ""
          want(i) == MetricVal(r.metric, r.produced[i], r.t2)
-         ints == r.metric \in {"fp_count", "fn_count"}
-         theta == [i \in 1..np |-> want(i)[1]]
-         est == MetricVal(r.metric, r.src, r.t2)[1]
+         ints == r.metric \in {"fp_count", "fn_count", "vec"}
+         nc == Len(MetricVal(r.metric, r.src, r.t2))
+         (* replicates of component k (NaN -> NaNTok, ignored by the formulas)       *)
+         theta(k) == [i \in 1..np |-> IF want(i)[k][2] = 0 THEN NaNTok ELSE want(i)[k][1]]
+         est(k) == LET v == MetricVal(r.metric, r.src, r.t2)[k] IN IF v[2] = 0 THEN NaNTok ELSE v[1]
          identity == \A i \in 1..np : r.produced[i] = r.src
-         vs == SortedFinite(theta)
-         tol == 200 * (vs[np] - vs[1]) + 5
-         model == IF r.method = "quantile"
-                  THEN LET q == QuantileCI(theta, r.alpha) IN
-                       <<(q[1][1] * FS) \div q[1][2], (q[2][1] * FS) \div q[2][2]>>
-                  ELSE CorrectedCI6(theta, est, r.alpha, r.method)
+         defined(k) == NFinite(theta(k)) > 0 /\ est(k) # NaNTok
+         tol(k) == LET vs == SortedFinite(theta(k)) IN 200 * (vs[Len(vs)] - vs[1]) + 5
+         model(k) == IF r.method = "quantile"
+                     THEN LET q == QuantileCI(theta(k), r.alpha) IN
+                          <<(q[1][1] * FS) \div q[1][2], (q[2][1] * FS) \div q[2][2]>>
+                     ELSE CorrectedCI6(theta(k), est(k), r.alpha, r.method)
      IN Report(e, Failing({
           <<"C14.raised", ok>>,
           <<"C14.one_sample_per_row", ~ok \/ np = r.n>>,
@@ -77,9 +85,12 @@ TraceReturn ==
           <<"C14.row_is_metric_of_jth_sample", ~ok \/ r.call # "metric" \/ np # r.n \/ Len(e.rows) # np \/
                \A i \in 1..np : SameVal(e.rows[i], want(i))>>,
           <<"C14.ci_is_formula_on_replicates", ~ok \/ r.call # "ci" \/ ~ints \/ np # r.n \/ np = 0 \/
-               (Close(e.ci[1], model[1], tol) /\ Close(e.ci[2], model[2], tol))>>,
+               (Len(e.ci) = nc /\ \A k \in 1..nc : defined(k) =>
+                   (Close(e.ci[k][1], model(k)[1], tol(k)) /\ Close(e.ci[k][2], model(k)[2], tol(k))))>>,
           <<"C14.identity_sampler_collapses", ~ok \/ r.call # "ci" \/ ~ints \/ ~identity \/
-               (Close(e.ci[1], est * FS, 1) /\ Close(e.ci[2], est * FS, 1))>>,
+               (Len(e.ci) = nc /\ \A k \in 1..nc : est(k) # NaNTok =>
+                   (Close(e.ci[k][1], est(k) * FS, 1) /\ Close(e.ci[k][2], est(k) * FS, 1)))>>,
+          <<"C14.group_rows_are_metric_of_samples", ~ok \/ e.group_rows_ok>>,
           <<"C14.reproducible_for_fixed_seed", ~ok \/ e.same_seed_same_result>>,
           <<"C14.kwargs_forwarded", ~ok \/ e.kwargs_seen>>,
           <<"DRIFT.loop_order", ~ok \/ np # r.n \/ OrderAsModelled(r)>>}))
